@@ -557,6 +557,8 @@ pub fn run_scenarios(scs: &[Value]) -> (Vec<String>, Vec<Value>) {
     for (ix, sc) in scs.iter().enumerate() {
         // scaled run (see model.rs): only meaningful for macro recordings of single-threaded histories
         SCALE.store(sc["scale"].as_u64().unwrap_or(1).max(1), std::sync::atomic::Ordering::Relaxed);
+        TSOFF.store(sc["tsoff"].as_str().and_then(|x| x.parse::<u64>().ok()).or(sc["tsoff"].as_u64()).unwrap_or(0), std::sync::atomic::Ordering::Relaxed);
+        ULID_IDS.store(sc["ulid"].as_bool().unwrap_or(false), std::sync::atomic::Ordering::Relaxed);
         let micro = sc["log"].as_str().unwrap_or("micro") == "micro";
         let sd = &sc["sched"];
         let mode = sd["mode"].as_str().unwrap_or("fixed");
